@@ -21,6 +21,7 @@ type Clause struct {
 type LoopSpec struct {
 	Invariants []*Clause
 	Decreases  *Clause
+	Reveals    []*Sx // definitional instances of opaque spec functions assumed at the loop head
 }
 
 type GhostParam struct {
@@ -397,6 +398,12 @@ func (cs *ContractSet) parseFile(path string, pkgPath string, raw bool) error {
 						return err
 					}
 					ls.Invariants = append(ls.Invariants, &Clause{Kind: "invariant", Tags: ltags, Label: label, Expr: x, Src: src(at)})
+				case "reveal":
+					x, err := readSx()
+					if err != nil {
+						return err
+					}
+					ls.Reveals = append(ls.Reveals, x)
 				case "decreases":
 					x, err := readSx()
 					if err != nil {
